@@ -95,7 +95,7 @@ def _post(src, dst, before_src, before_dst, after_src, after_dst, selected_ids, 
                     problems.append(("destination-only document key changed", k, kk))
     # no temp / backup files left
     for k in after_dst:
-        if k.endswith("~"):
+        if k.endswith("~") and k not in before_dst:
             problems.append(("backup file left", k))
     return problems
 
@@ -161,9 +161,14 @@ def h_files__reach(entry: int, pres: int, f: int, g: int, mrel: int, strat: int,
     assert not (out == "ok" and f == 4 and strat == 1)  # twin: a returning sync that overwrote a conflicting file is reachable
 
 
-def _docs_case(entry, pres, dstate, pstate, didx, strat_copy):
+def _docs_case(entry, pres, dstate, pstate, didx, strat_copy, tilde=False):
     with SL.Scratch() as sc:
         src, dst = SL.build(sc.root, pres, 1, 0, 0, dstate, pstate)
+        if tilde:
+            # destination-only files named like an editor's backup of the documents (signac uses the same names for its own backups)
+            if pres & 2:
+                SL.put(dst.open_job(SL.SPS[0]).fn(DOCFN + "~"), b"editor backup", SL.T_OLD)
+            SL.put(os.path.join(dst.path, "signac_project_document.json~"), b"editor backup", SL.T_OLD)
         bs, bd = SL.snap(src.path), SL.snap(dst.path)
         ids = [j.id for j in src]
         # COPY treats documents as files: a file strategy is needed when they differ
@@ -178,6 +183,12 @@ def _docs_case(entry, pres, dstate, pstate, didx, strat_copy):
         out = SL.outcome(call)
         if out == "doc" and didx == 4:
             return ("error", "DocumentSyncConflict", "raised although doc_sync=NO_SYNC leaves every document alone"), []
+        if tilde and isinstance(out, tuple) and out[1] == "RuntimeError":
+            # refusing to run over a file it would have to overwrite is fine - as long as nothing was touched
+            now = SL.snap(dst.path)
+            if any(now.get(k) != v or now.get(k[:-1]) != bd.get(k[:-1]) for k, v in bd.items() if k.endswith("~")):
+                return ("error", "RuntimeError", "refused, but the file in the way (or the document next to it) changed"), []
+            return "refused", []
         if out != "ok":
             return out, []
         as_, ad = SL.snap(src.path), SL.snap(dst.path)
@@ -209,14 +220,15 @@ def _docs_case(entry, pres, dstate, pstate, didx, strat_copy):
         return "ok", problems
 
 
-def h_docs(entry: int, pres: int, dstate: int, pstate: int, didx: int, strat_copy: bool):
+def h_docs(entry: int, pres: int, dstate: int, pstate: int, didx: int, strat_copy: bool, tilde: bool):
     assert 0 <= entry <= 1 and 0 <= pres < 16 and 0 <= dstate <= 6 and 0 <= pstate <= 2 and 0 <= didx <= 6 and part_ok(dstate)
     assert pres & 1 and (entry == 0 or pres & 3 == 3) and (didx == 5 or not strat_copy)
     assert tier() != "quick" or pres in (3, 7, 15, 1)
+    assert not tilde or (pres in (3, 15) and not strat_copy)
     fresh_path()
-    entry, pres, dstate, pstate, didx, strat_copy = ci(entry, 0, 1), ci(pres, 0, 15), ci(dstate, 0, 6), pick([0, 4, 5], pstate), ci(didx, 0, 6), cb(strat_copy)
+    entry, pres, dstate, pstate, didx, strat_copy, tilde = ci(entry, 0, 1), ci(pres, 0, 15), ci(dstate, 0, 6), pick([0, 4, 5], pstate), ci(didx, 0, 6), cb(strat_copy), cb(tilde)
     with nt():
-        out, problems = _docs_case(entry, pres, dstate, pstate, didx, strat_copy)
+        out, problems = _docs_case(entry, pres, dstate, pstate, didx, strat_copy, tilde)
     if out != "ok" and not isinstance(out, tuple):
         discard("sync did not return (conflict): C14")
     reached()
